@@ -359,7 +359,7 @@ class Analysis:
                 sub._func = f  # type: ignore[attr-defined]
         return new
 
-    def dnf(self, e: ast.expr, positive: bool, fi: Optional[FunctionInfo], inline=True, _depth=0, inline_preds=False) -> List[Conj]:
+    def dnf(self, e: ast.expr, positive: bool, fi: Optional[FunctionInfo], inline=True, _depth=0, inline_preds=False, xstop=None) -> List[Conj]:
         """DNF of a test expression (negated when positive=False). Local
         booleans with a single assignment are inlined."""
         if inline_preds and isinstance(e, ast.Call) and _depth < 4:
@@ -368,7 +368,7 @@ class Analysis:
                 return self.dnf(pb, positive, fi, inline=False, _depth=_depth + 1, inline_preds=True)
         if isinstance(e, ast.BoolOp):
             is_and = isinstance(e.op, ast.And)
-            parts = [self.dnf(v, positive, fi, inline, _depth, inline_preds) for v in e.values]
+            parts = [self.dnf(v, positive, fi, inline, _depth, inline_preds, xstop) for v in e.values]
             if is_and == positive:  # conjunction
                 return _and_all(parts)
             out: List[Conj] = []
@@ -376,14 +376,19 @@ class Analysis:
                 out.extend(p_)
             return _simplify(out)
         if isinstance(e, ast.UnaryOp) and isinstance(e.op, ast.Not):
-            return self.dnf(e.operand, not positive, fi, inline, _depth, inline_preds)
+            return self.dnf(e.operand, not positive, fi, inline, _depth, inline_preds, xstop)
         if inline and isinstance(e, ast.Name) and fi is not None and _depth < 6:
             v = self.single_def_value(fi, e.id)
             if v is not None and isinstance(v, (ast.BoolOp, ast.Compare, ast.UnaryOp, ast.Call, ast.Name, ast.Attribute)):
-                return self.dnf(v, positive, fi, inline, _depth + 1, inline_preds)
+                return self.dnf(v, positive, fi, inline, _depth + 1, inline_preds, xstop)
         if isinstance(e, ast.IfExp) or isinstance(e, ast.NamedExpr):
             pass
-        a, pol = self.atom(e, fi)
+        if xstop is not None and fi is not None:
+            src_fi = getattr(e, "_func", None) or fi
+            e2 = self.expand(e, src_fi, stop=xstop)
+            a, pol = self.atom(e2, fi)
+        else:
+            a, pol = self.atom(e, fi)
         if a == "const":
             return [frozenset()] if pol == positive else []
         return [frozenset({(a, pol == positive)})]
@@ -400,7 +405,7 @@ class Analysis:
             return [norm(x) for x in v.elts]
         return None
 
-    def path_guards(self, g: CFG, start: Node, target: Node, fi: FunctionInfo, extra_stop: Iterable[Node] = (), inline_preds=False) -> List[Conj]:
+    def path_guards(self, g: CFG, start: Node, target: Node, fi: FunctionInfo, extra_stop: Iterable[Node] = (), inline_preds=False, xstop=None) -> List[Conj]:
         """DNF of the condition under which control flows start ->* target along
         normal (non-exceptional, non-back) edges."""
         paths = g.enum_paths(start, {target}, skip_labels=lambda l: is_exc(l) or is_back(l), stop=set(extra_stop))
@@ -410,7 +415,7 @@ class Analysis:
             dead = False
             for (n, l) in path:
                 if n.kind == "test" and cfgm.branch_of(l):
-                    d = self.dnf(n.ast, cfgm.branch_of(l) == "T", fi, inline_preds=inline_preds)
+                    d = self.dnf(n.ast, cfgm.branch_of(l) == "T", fi, inline_preds=inline_preds, xstop=xstop)
                     conj = _and_all([conj, d])
                     if not conj:
                         dead = True
